@@ -223,7 +223,7 @@ def main():
         if "compile_designs" in P:
             import gdesign
             def build_one(d):
-                moddir, err = gdesign.generate(d, REPO, tmp + "/c")
+                moddir, err = gdesign.generate(d, REPO, tmp + "/c", os.path.join(VERIF, "tools", "fakeprotoc"))
                 if err:
                     return d, "generator", err
                 r = subprocess.run(["go", "build", "./gen/..."], cwd=moddir, env=GOENV, capture_output=True, text=True)
@@ -298,6 +298,15 @@ def main():
                         err = " ".join(outs.get("_error", []))
                         if "_error" in outs and ("vh/zz_h_" in err or "zz_h_" in err):
                             api_mismatch.append({"job": job["name"], "harness": res["_harness"], "errors": [l for l in st.splitlines() if "load error" in l][:8], "native_build": err[-1500:]})
+                            continue
+                    else:
+                        continue
+                # the generated packages themselves do not type-check: confirm with the Go compiler
+                if "moddir" in job and "package load/type errors" in res["error"] and "/gen/" in st:
+                    if not any(a["job"] == job["name"] for a in api_mismatch):
+                        r = subprocess.run(["go", "build", "./gen/..."], cwd=job["moddir"], env=GOENV, capture_output=True, text=True)
+                        if r.returncode != 0:
+                            api_mismatch.append({"job": job["name"], "harness": res["_harness"], "kind": "generated-code-compiles", "errors": [l for l in st.splitlines() if "load error" in l][:8], "native_build": (r.stdout + r.stderr)[-1500:]})
                             continue
                     else:
                         continue
@@ -415,6 +424,13 @@ def main():
             json.dump({"design": d, "stage": stage, "output": msg, "how_to_replay": f"python3 /verif/gdesign.py {d}  && (cd <dir> && go build ./gen/...)"}, open(path, "w"), indent=1)
             violations_out.append(({"harness": "design:" + d, "assert": "generated-code-compiles", "model": {}, "detail": msg[-300:]}, path))
         P["_compiled"] = [d for d, st, _ in compile_results if st is None]
+        for d, err in (P.get("_design_errors") or {}).items():
+            if P.get("proto_errors_are_violations") and "stand-in protoc:" in err:
+                os.makedirs(replay_dir, exist_ok=True)
+                path = os.path.join(replay_dir, f"design_{d}_proto.json")
+                json.dump({"design": d, "protoc_stand_in_output": err[-1500:], "how_to_replay": f"PATH=/verif/tools/fakeprotoc:$PATH python3 /verif/gdesign.py {d}"}, open(path, "w"), indent=1)
+                violations_out.append(({"harness": "design:" + d, "assert": "proto-file-well-formed", "model": {}, "detail": err[-300:]}, path))
+                infra[:] = [i for i in infra if not i.startswith(f"design {d}:")]
         for d, problems in history_results:
             if not problems:
                 continue
@@ -428,7 +444,7 @@ def main():
             path = os.path.join(replay_dir, f"{am['harness']}_generated_api_mismatch.json")
             am["explanation"] = "the harness is written against the Go API and JSON shape that the catalogue design implies (and type-checks on the unchanged tree); against the code generated by this tree it no longer compiles, natively either (go test -overlay build output included)"
             json.dump(am, open(path, "w"), indent=1)
-            violations_out.append(({"harness": am["harness"], "assert": "generated-api-matches-design", "model": {}, "detail": "; ".join(am["errors"])[:400]}, path))
+            violations_out.append(({"harness": am["harness"], "assert": am.get("kind", "generated-api-matches-design"), "model": {}, "detail": "; ".join(am["errors"])[:400]}, path))
         for kid, kf in known_seen.items():
             print(f"KNOWN-FINDING: property={prop} {kid}: {kf['description']}")
         for rec, path in violations_out:
